@@ -76,7 +76,7 @@ def cases(tier, seed):
                 for pl in pls:
                     batch.append([e2, sign, pl])
         out.append({"kind": "pairs", "e1": e1, "items": batch, "s": int(rng.integers(1 << 30))})
-    nrand = 150 if tier == "quick" else 4000
+    nrand = 150 if tier == "quick" else 60000
     for j in range(nrand):
         out.append({"kind": "random", "s": int(rng.integers(1 << 30)), "cell": [None, "ortho", "tri"][j % 3]})
     return out
